@@ -523,6 +523,10 @@ class MutableDensePauliString(BaseDensePauliString):
     def _value_equality_values_(self):
         return self.coefficient, tuple(PAULI_CHARS[p] for p in self.pauli_mask)
 
+    def _value_equality_approximate_values_(self):
+        # Not inherited: the base class getter is memoised per instance, which is wrong for a mutable object.
+        return self._value_equality_values_()
+
     @classmethod
     def inline_gaussian_elimination(cls, rows: list[MutableDensePauliString]) -> None:
         if not rows:
